@@ -18,6 +18,12 @@ func vpC04_O1() {
 	k := vpParam("nattr", 2)
 	cred := vpCredential(pk, sk, "a", k, 300)
 	disclosed, isDisc := vpDisclosureChoice("disc", k)
+	// the choice is a set: the caller may list it in any order (here ascending or descending)
+	if vpBool("descendingChoice") {
+		for a, b := 0, len(disclosed)-1; a < b; a, b = a+1, b-1 {
+			disclosed[a], disclosed[b] = disclosed[b], disclosed[a]
+		}
+	}
 	ctx, nonce := vpBigBits("ctx", 256), vpBigBits("nonce", 80)
 	issig := vpBool("issig")
 
